@@ -55,7 +55,7 @@ def run(rep, idx, tier):
     pin_loops += [L for L in c.t.loops.values() if L.kind == 'range' and c.norm(L.bounds[1]) in
                   (c.parse("self.pin_count"), c.parse("len(self.pins)")) and c.norm(L.bounds[0]) == ('const', 0)]
     if len(pin_loops) != 1:
-        rep.bad("C16.4", site, "per-pin loop", f"expected one loop over self.pins, found {len(pin_loops)}")
+        rep.unk("C16.4", site, "per-pin loop", f"expected one loop over self.pins, found {len(pin_loops)}")
         return
     L = pin_loops[0]
     n = ('idx', L.id)
